@@ -314,6 +314,69 @@ func checkC18(r *core.Result) {
 		})
 		r.Floor("successful returns of UnmarshalJSON", nRet, 4)
 	}
+	// J9: no probe shadows a later one. The probes are comma-ok assertions tried in order; if every value that satisfies
+	// a later probe's interface also satisfies an earlier probe's interface, the later region is dead code and its runtime
+	// is served by the earlier runtime's JSON package - unless the earlier probe carries a discriminating condition.
+	for _, mname := range []string{"(*jsonMarshaler).MarshalJSON", "(*jsonUnmarshaler).UnmarshalJSON"} {
+		f := core.FindFunc(root, mname)
+		if f == nil {
+			continue
+		}
+		type probe struct {
+			iface *types.Interface
+			text  string
+			plain bool // condition is just `ok`
+			pos   token.Pos
+		}
+		var probes []probe
+		for _, st := range f.Decl.Body.List {
+			is, ok := st.(*ast.IfStmt)
+			if !ok {
+				continue
+			}
+			as, ok := is.Init.(*ast.AssignStmt)
+			if !ok || len(as.Rhs) != 1 {
+				continue
+			}
+			ta, ok := as.Rhs[0].(*ast.TypeAssertExpr)
+			if !ok || ta.Type == nil {
+				continue
+			}
+			t := info.TypeOf(ta.Type)
+			if t == nil {
+				continue
+			}
+			it, ok := t.Underlying().(*types.Interface)
+			if !ok {
+				continue
+			}
+			_, plain := is.Cond.(*ast.Ident)
+			probes = append(probes, probe{iface: it, text: types.ExprString(ta.Type), plain: plain, pos: is.Pos()})
+		}
+		for j := 1; j < len(probes); j++ {
+			shadowedBy := ""
+			for i := 0; i < j; i++ {
+				if !probes[i].plain {
+					continue
+				}
+				// methods(earlier) ⊆ methods(later)  ⇒  every value matching the later probe matches the earlier one
+				sub := true
+				for k := 0; k < probes[i].iface.NumMethods(); k++ {
+					m := probes[i].iface.Method(k)
+					obj, _, _ := types.LookupFieldOrMethod(probes[j].iface, false, m.Pkg(), m.Name())
+					if fn, ok := obj.(*types.Func); !ok || !types.Identical(fn.Type(), m.Type()) {
+						sub = false
+					}
+				}
+				if sub {
+					shadowedBy = probes[i].text
+				}
+			}
+			r.Ob("J9", mname+" :: probe "+probes[j].text+" is reachable", prog.Pos(probes[j].pos), shadowedBy == "",
+				"every value that implements "+probes[j].text+" also implements "+shadowedBy+", which is probed earlier without any further condition: this region never runs and its runtime's messages are handled by the other runtime's JSON package")
+		}
+		r.Floor("probes of "+mname, len(probes), 4)
+	}
 	// J8: error paths. Inside the two adapter methods an error is returned only (a) for a nil message (UnmarshalJSON),
 	// (b) under `err != nil` where err is the error result of a call into a runtime's JSON package made in the same
 	// statement / the statement before, (c) as the final "unsupported message type" result. The error test of every
@@ -356,9 +419,13 @@ func checkC18(r *core.Result) {
 				if as, ok := is.Init.(*ast.AssignStmt); ok && len(as.Lhs) == 2 && len(as.Rhs) == 1 {
 					if _, isTA := as.Rhs[0].(*ast.TypeAssertExpr); isTA {
 						okID, _ := as.Lhs[1].(*ast.Ident)
-						condID, _ := is.Cond.(*ast.Ident)
+						cond := is.Cond
+						if b, isAnd := cond.(*ast.BinaryExpr); isAnd && b.Op == token.LAND {
+							cond = b.X // ok && <discriminator>
+						}
+						condID, _ := cond.(*ast.Ident)
 						r.Ob("J8", mname+" :: probe "+types.ExprString(as.Rhs[0])+" runs on success of the assertion", prog.Pos(is.Pos()), okID != nil && condID != nil && info.Uses[condID] == info.Defs[okID],
-							"the probe's body must run exactly when the type assertion succeeded (condition: "+types.ExprString(is.Cond)+")")
+							"the probe's body must run only when the type assertion succeeded (condition: "+types.ExprString(is.Cond)+")")
 						continue
 					}
 				}
